@@ -23,6 +23,7 @@ import (
 	"strings"
 	"time"
 
+	"github.com/DemoHn/Zn/pkg/common"
 	"github.com/DemoHn/Zn/pkg/exec"
 	r "github.com/DemoHn/Zn/pkg/runtime"
 	"github.com/DemoHn/Zn/pkg/server"
@@ -70,6 +71,10 @@ func c11Drivers() []c11Driver {
 		add(fmt.Sprintf("dict-contains-mask%d", mask), "输出以【0，【A=1，B=2，C=3】】（包含："+d+"）")
 		add(fmt.Sprintf("dict-find-mask%d", mask), "输出以【0，【A=1，B=2，C=3】】（寻找："+d+"）")
 		add(fmt.Sprintf("dict-nested-mask%d", mask), "输出【【K=【A=1，B=2，C=3】】】为【【K="+d+"】】")
+		dr := fmt.Sprintf("【C=%s，B=%s，A=%s】", rhs[2], rhs[1], rhs[0])
+		add(fmt.Sprintf("dict-reversed-为-mask%d", mask), "输出【A=1，B=2，C=3】为"+dr)
+		add(fmt.Sprintf("dict-reversed-contains-mask%d", mask), "输出以【0，【A=1，B=2，C=3】】（包含："+dr+"）")
+		add(fmt.Sprintf("dict-reversed-find-mask%d", mask), "输出以【0，【A=1，B=2，C=3】】（寻找："+dr+"）")
 	}
 	// dictionaries holding a value that cannot be compared (an object) next to
 	// entries that differ: the verdict (假 or an error) must not depend on which entry is visited first
@@ -90,12 +95,17 @@ func c11Drivers() []c11Driver {
 				bit++
 			}
 			pre := "定义型：\n    其P = 1\n令O = （新建型）\n"
-			L, R := "【"+strings.Join(l, "，")+"】", "【"+strings.Join(rr, "，")+"】"
-			for _, op := range []string{"为", "不为", "==", "/="} {
-				add(fmt.Sprintf("dict-object-entry-%s-o%d-mask%d", op, opos, mask), pre+"输出"+L+op+R)
+			L := "【" + strings.Join(l, "，") + "】"
+			// the right-hand dictionary with its keys in the same order, and reversed
+			for ri, R := range []string{"【" + strings.Join(rr, "，") + "】", "【" + rr[2] + "，" + rr[1] + "，" + rr[0] + "】"} {
+				tag := fmt.Sprintf("o%d-mask%d-r%d", opos, mask, ri)
+				for _, op := range []string{"为", "不为", "==", "/="} {
+					add("dict-object-entry-"+op+"-"+tag, pre+"输出"+L+op+R)
+				}
+				add("dict-object-entry-contains-"+tag, pre+"输出以【0，"+L+"】（包含："+R+"）")
+				add("dict-object-entry-find-"+tag, pre+"输出以【0，"+L+"】（寻找："+R+"）")
+				add("dict-object-entry-nested-find-"+tag, pre+"输出以【0，【"+L+"】】（寻找：【"+R+"】）")
 			}
-			add(fmt.Sprintf("dict-object-entry-contains-o%d-mask%d", opos, mask), pre+"输出以【0，"+L+"】（包含："+R+"）")
-			add(fmt.Sprintf("dict-object-entry-find-o%d-mask%d", opos, mask), pre+"输出以【0，"+L+"】（寻找："+R+"）")
 		}
 	}
 	// JSON documents by shape: 1..2 top-level members, each a scalar, an object of 3, a list of
@@ -148,8 +158,12 @@ func c11Drivers() []c11Driver {
 	ds = append(ds, c11Driver{Name: "http-headers", Kind: "http",
 		Source: "输入当前请求\n输出【当前请求之头部之所有索引，当前请求之查询参数之所有索引】",
 		Header: map[string]string{"X-C": "1", "X-A": "2", "X-B": "3"}, Query: "c=1&a=2&b=3"})
+	// the response class is registered by a harness library (stdlib/http, which does it in the
+	// product, does not compile at this commit); header names that canonicalise to one header
 	ds = append(ds, c11Driver{Name: "http-response-headers", Kind: "http",
-		Source: "输入当前请求\n输出（新建HTTP响应：200、“ok”、【C=“1”，A=“2”，B=“3”】）"})
+		Source: "导入《@HTTP》\n输入当前请求\n输出（新建HTTP响应：200、“ok”、【“X-C”=“1”，“X-A”=“2”，“x-a”=“3”，“X-a”=“4”】）"})
+	ds = append(ds, c11Driver{Name: "http-response-headers-json", Kind: "http",
+		Source: "导入《@HTTP》\n输入当前请求\n输出（新建HTTP响应：201、【c=1，a=2，b=3】、【“x-b”=“1”，“X-B”=“2”，“X-A”=“3”】）"})
 	// expression inputs evaluated from a map
 	ds = append(ds, c11Driver{Name: "exprinput-ok", Kind: "exprinput", Exprs: map[string]string{"c": "1 + 1", "a": "“x”", "b": "【1，2】"}})
 	ds = append(ds, c11Driver{Name: "exprinput-two-errors", Kind: "exprinput", Exprs: map[string]string{"a": "1 / 0", "b": "【1】#5", "c": "1"}})
@@ -206,7 +220,8 @@ func c11RunOnce(d c11Driver, rec *mc.Recorder) (out string) {
 		dir := c11TempDir()
 		entry := filepath.Join(dir, "入口.zn")
 		os.WriteFile(entry, []byte(d.Source), 0o644)
-		in := exec.NewInterpreter("verif").SetExternalLibs(zn.Libs())
+		httpLib := r.NewLibrary("@HTTP").RegisterClass("HTTP响应", common.CLASS_HttpResponse)
+		in := exec.NewInterpreter("verif").SetExternalLibs(append(zn.Libs(), httpLib))
 		h := server.NewZnHttpHandler(in, entry)
 		req := httptest.NewRequest("GET", "http://h/p?"+d.Query, nil)
 		if d.Body != "" {
@@ -220,7 +235,7 @@ func c11RunOnce(d c11Driver, rec *mc.Recorder) (out string) {
 		h.ServeHTTP(w, req)
 		var hk []string
 		for k, v := range w.Header() {
-			hk = append(hk, k+"="+strings.Join(v, ","))
+			hk = append(hk, k+"="+strings.Join(v, ",")) // values of one header in the order they were added
 		}
 		sort.Strings(hk)
 		return fmt.Sprintf("HTTP %d %v body=%s", w.Code, hk, w.Body.String())
@@ -260,6 +275,8 @@ func c11Sites() []string {
 
 func c11Sig(d c11Driver) string {
 	switch {
+	case strings.HasPrefix(d.Name, "http-response-headers"):
+		return "response-header-order"
 	case d.Kind == "http" && d.Name == "http-headers":
 		return "request-header-order"
 	case d.Name == "module-collision-two-names":
@@ -280,7 +297,7 @@ func init() {
 	mc.Register(&mc.Check{
 		ID:    "C11",
 		Level: "model_checking",
-		Rule: "E3: stateless deviation-bounded DFS over map-iteration-order choices. Every range-over-map site of the interpreter (inventoried from the current source with go/types by tools/mapperm and rewritten through a build overlay) is a choice point at each dynamic occurrence with n! alternatives for n <= 3 keys (rotations + reversal above); deviation = an occurrence not in sorted order; bounds 0,1,2 (3 in thorough). Driver programs per site with >= 3 keys and contents chosen so that order matters if it can: dictionary 为/不为/==//= with equal key sets under all 8 patterns of differing values, nested, 包含/寻找 of dictionaries; the same with an entry that cannot be compared (an object) at each position x every pattern of differing entries; parsed JSON documents of every shape with 1..2 top-level members over {scalar, object of 3, list of objects, object in object}, shown and re-generated, also as HTTP JSON request bodies; 所有索引/iteration; 生成JSON; object creation with 3 defaults; library and module imports (all names, colliding names, cycles); HTTP request headers/query and response headers; expression inputs. Oracle: all executions of one driver are identical in result, display trace and error (class, code, message, rendered report incl. lines). A state = one complete execution under one order vector.",
+		Rule: "E3: stateless deviation-bounded DFS over map-iteration-order choices. Every range-over-map site of the interpreter (inventoried from the current source with go/types by tools/mapperm and rewritten through a build overlay) is a choice point at each dynamic occurrence with n! alternatives for n <= 3 keys (rotations + reversal above); deviation = an occurrence not in sorted order; bounds 0,1,2 (3 in thorough). Driver programs per site with >= 3 keys and contents chosen so that order matters if it can: dictionary 为/不为/==//= with equal key sets under all 8 patterns of differing values, nested, 包含/寻找 of dictionaries; the same with the right-hand keys reversed, and with an entry that cannot be compared (an object) at each position x every pattern of differing entries x same / reversed key order; parsed JSON documents of every shape with 1..2 top-level members over {scalar, object of 3, list of objects, object in object}, shown and re-generated, also as HTTP JSON request bodies; 所有索引/iteration; 生成JSON; object creation with 3 defaults; library and module imports (all names, colliding names, cycles); HTTP request headers/query and response headers; expression inputs. Oracle: all executions of one driver are identical in result, display trace and error (class, code, message, rendered report incl. lines). A state = one complete execution under one order vector.",
 		Assumptions: []string{
 			"only hash-map iteration order is controlled (the source the statement names); Go select, goroutine scheduling and rand are not (取随机数 is excepted by the statement)",
 			"order vectors with more deviations than the bound are not covered; sites no driver reaches are listed in evidence, not reported as violations",
